@@ -2,6 +2,11 @@ package main
 
 import (
 	"fmt"
+	"hash"
+	"hash/adler32"
+	"hash/crc32"
+	"hash/crc64"
+	"hash/fnv"
 	"math"
 	"runtime"
 	"sort"
@@ -13,9 +18,12 @@ import (
 	"gonum.org/v1/gonum/lapack"
 	"gonum.org/v1/gonum/lapack/lapack64"
 	"gonum.org/v1/gonum/mat"
+	"gonum.org/v1/gonum/spatial/r1"
 	"gonum.org/v1/gonum/stat"
+	"gonum.org/v1/gonum/stat/card"
 	"gonum.org/v1/gonum/stat/distmat"
 	"gonum.org/v1/gonum/stat/distmv"
+	"gonum.org/v1/gonum/unit"
 	"gonum.org/v1/gonum/verifx/vrt"
 )
 
@@ -31,6 +39,42 @@ import (
 type mixShared struct {
 	normal  *distmv.Normal
 	wishart *distmat.Wishart
+	tag     string // distinguishes the solo and the concurrent pass in names entered into global registries
+}
+
+// Hash constructors registered with card.RegisterHash: sketches restored by
+// UnmarshalBinary into zero-value receivers obtain their hash from that
+// package-level registry. All are stateful (Write/Sum/Reset on one object).
+var (
+	mixHash32 = []func() hash.Hash32{fnv.New32, fnv.New32a, crc32.NewIEEE, adler32.New}
+	mixHash64 = []func() hash.Hash64{fnv.New64, fnv.New64a, func() hash.Hash64 { return crc64.New(crc64.MakeTable(crc64.ISO)) }}
+)
+
+func registerMixHashes() {
+	for _, f := range mixHash32 {
+		card.RegisterHash(f)
+	}
+	for _, f := range mixHash64 {
+		card.RegisterHash(f)
+	}
+}
+
+func (o *mixOut) bytes(b []byte) {
+	h := fnv.New64a()
+	h.Write(b)
+	o.words = append(o.words, uint64(len(b)), h.Sum64())
+}
+
+func cardItems(r *vrt.Rand, n int) [][]byte {
+	items := make([][]byte, n)
+	for i := range items {
+		b := make([]byte, r.Range(1, 24))
+		for j := range b {
+			b[j] = byte(r.Uint64())
+		}
+		items[i] = b
+	}
+	return items
 }
 
 type mixOut struct {
@@ -592,6 +636,178 @@ var mixOps = []mixOp{
 	}},
 }
 
+// Operations on objects obtained through package-level registries and
+// factories (round 4): every goroutine owns its objects, but a library that
+// hands out shared state behind them would make them interfere.
+var mixOpsRegistry = []mixOp{
+	{"card.HyperLogLog32-restored", func(r *vrt.Rand, _ *mixShared, o *mixOut) {
+		hf := mixHash32[r.Intn(len(mixHash32))]
+		prec := r.Range(4, 10)
+		restore := func(seedItems int) *card.HyperLogLog32 {
+			src, err := card.NewHyperLogLog32(prec, hf())
+			o.e(err)
+			for _, it := range cardItems(r, seedItems) {
+				src.Write(it)
+			}
+			blob, err := src.MarshalBinary()
+			o.e(err)
+			var sk card.HyperLogLog32 // zero value: the registry supplies the hash
+			o.e(sk.UnmarshalBinary(blob))
+			o.f(sk.Count(), src.Count())
+			return &sk
+		}
+		a, b := restore(r.Intn(50)), restore(r.Intn(50))
+		for _, it := range cardItems(r, r.Range(300, 900)) {
+			a.Write(it)
+			if len(it)&1 == 0 {
+				b.Write(it)
+			}
+		}
+		o.f(a.Count(), b.Count())
+		var u card.HyperLogLog32
+		o.e(u.Union(a, b))
+		o.f(u.Count())
+		ba, err := a.MarshalBinary()
+		o.e(err)
+		o.bytes(ba)
+		// reuse after Reset
+		a.Reset()
+		for _, it := range cardItems(r, 100) {
+			a.Write(it)
+		}
+		o.f(a.Count())
+		// restoring into a sketch that already has a hash of the right type
+		keep, _ := card.NewHyperLogLog32(prec, hf())
+		o.e(keep.UnmarshalBinary(ba))
+		keep.Write([]byte("c09"))
+		o.f(keep.Count())
+	}},
+	{"card.HyperLogLog64-restored", func(r *vrt.Rand, _ *mixShared, o *mixOut) {
+		hf := mixHash64[r.Intn(len(mixHash64))]
+		prec := r.Range(4, 12)
+		restore := func(seedItems int) *card.HyperLogLog64 {
+			src, err := card.NewHyperLogLog64(prec, hf())
+			o.e(err)
+			for _, it := range cardItems(r, seedItems) {
+				src.Write(it)
+			}
+			blob, err := src.MarshalBinary()
+			o.e(err)
+			var sk card.HyperLogLog64
+			o.e(sk.UnmarshalBinary(blob))
+			o.f(sk.Count(), src.Count())
+			return &sk
+		}
+		a, b := restore(r.Intn(50)), restore(r.Intn(50))
+		for _, it := range cardItems(r, r.Range(300, 900)) {
+			a.Write(it)
+			if len(it)&1 == 0 {
+				b.Write(it)
+			}
+		}
+		o.f(a.Count(), b.Count())
+		var u card.HyperLogLog64
+		o.e(u.Union(a, b))
+		o.f(u.Count())
+		ba, err := a.MarshalBinary()
+		o.e(err)
+		o.bytes(ba)
+		a.Reset()
+		for _, it := range cardItems(r, 100) {
+			a.Write(it)
+		}
+		o.f(a.Count())
+		keep, _ := card.NewHyperLogLog64(prec, hf())
+		o.e(keep.UnmarshalBinary(ba))
+		keep.Write([]byte("c09"))
+		o.f(keep.Count())
+	}},
+	{"unit-registry-values", func(r *vrt.Rand, sh *mixShared, o *mixOut) {
+		// A dimension of its own, created through the global registry, then
+		// arithmetic and formatting (which reads the registry) on values
+		// that use it together with the built-in dimensions.
+		sym := fmt.Sprintf("c09%s%x", sh.tag, r.Uint64())
+		o.b(unit.SymbolExists(sym))
+		d := unit.NewDimension(sym)
+		o.b(unit.SymbolExists(sym))
+		clean := func(s string) string { return strings.ReplaceAll(s, sym, "SYM") }
+		o.s(clean(d.String()))
+		a := unit.New(r.Uniform(1, 9), unit.Dimensions{d: 2, unit.LengthDim: 1})
+		b := unit.New(r.Uniform(1, 9), unit.Dimensions{d: -1, unit.MassDim: 1, unit.TimeDim: -2})
+		for k := 0; k < 20; k++ {
+			a.Mul(b)
+			o.s(clean(fmt.Sprintf("%v|%.3e|%+v", a, a, a.Dimensions())))
+			a.Div(b)
+			o.b(unit.DimensionsMatch(a, b), unit.SymbolExists(sym))
+		}
+		c := unit.New(2, unit.Dimensions{d: 2, unit.LengthDim: 1})
+		a.Add(c)
+		o.f(a.Value())
+		o.s(clean(fmt.Sprint(a)), fmt.Sprint(unit.Length(3).Unit(), unit.Mass(2*unit.Kilo), unit.Pressure(4)))
+		// duplicate registration must panic and leave the registry usable
+		p := vrt.TryFast(func() { unit.NewDimension(sym) })
+		o.b(p != nil)
+		o.s(clean(d.String()))
+	}},
+	{"distmv-constructed-instances", func(r *vrt.Rand, _ *mixShared, o *mixOut) {
+		n := r.Range(1, 6)
+		st, ok := distmv.NewStudentsT(r.Floats(n, r.Sym), rndSPD(r, n), r.Uniform(2.5, 9), vrt.NewRand(r.Uint64()))
+		o.b(ok)
+		if ok {
+			for k := 0; k < 5; k++ {
+				x := st.Rand(nil)
+				o.f(x...)
+				o.f(st.LogProb(x))
+			}
+			var cov mat.SymDense
+			st.CovarianceMatrix(&cov)
+			o.m(&cov)
+		}
+		al := r.Floats(n+1, func() float64 { return r.Uniform(0.3, 4) })
+		di := distmv.NewDirichlet(al, vrt.NewRand(r.Uint64()))
+		for k := 0; k < 5; k++ {
+			x := di.Rand(nil)
+			o.f(x...)
+			o.f(di.LogProb(x))
+		}
+		bnds := make([]r1.Interval, n)
+		for i := range bnds {
+			bnds[i] = r1.Interval{Min: -r.Uniform(0.1, 2), Max: r.Uniform(0.1, 2)}
+		}
+		un := distmv.NewUniform(bnds, vrt.NewRand(r.Uint64()))
+		for k := 0; k < 5; k++ {
+			x := un.Rand(nil)
+			o.f(x...)
+			o.f(un.LogProb(x), un.Entropy())
+		}
+		nm, ok := distmv.NewNormal(r.Floats(n, r.Sym), rndSPD(r, n), vrt.NewRand(r.Uint64()))
+		o.b(ok)
+		if ok {
+			for k := 0; k < 5; k++ {
+				o.f(nm.Rand(nil)...)
+			}
+		}
+		pm := distmat.NewUniformPermutation(vrt.NewRand(r.Uint64()))
+		pd := mat.NewDense(n+2, n+2, nil)
+		pm.PermTo(pd)
+		o.m(pd)
+		w, ok := distmat.NewWishart(rndSPD(r, n), float64(n)+2, vrt.NewRand(r.Uint64()))
+		o.b(ok)
+		if ok {
+			var rs, mean mat.SymDense
+			for k := 0; k < 3; k++ {
+				w.RandSymTo(&rs)
+				o.m(&rs)
+				o.f(w.LogProbSym(&rs))
+			}
+			w.MeanSymTo(&mean)
+			o.m(&mean)
+		}
+	}},
+}
+
+func init() { mixOps = append(mixOps, mixOpsRegistry...) }
+
 func newMixShared(r *vrt.Rand) *mixShared {
 	n := 6
 	nm, ok := distmv.NewNormal(r.Floats(n, r.Sym), rndSPD(r, n), nil)
@@ -677,6 +893,7 @@ func runMixed(c *vrt.Ctx, race bool) {
 	poolPoison(true)
 	defer poolPoison(false)
 	poolReset()
+	registerMixHashes()
 	var nops, npanics int64
 	highWater := 0
 	outstandingStart := poolSnapshot().outstanding
@@ -715,6 +932,7 @@ func runMixed(c *vrt.Ctx, race bool) {
 			shSeed := shr.Uint64()
 			shSolo := newMixShared(vrt.NewRand(shSeed))
 			shConc := newMixShared(vrt.NewRand(shSeed))
+			shSolo.tag, shConc.tag = fmt.Sprintf("s%dr%dg%d", c.Seed, rep, g), fmt.Sprintf("c%dr%dg%d", c.Seed, rep, g)
 			// Solo pass: one script after the other, nothing else running.
 			runtime.GOMAXPROCS(prev)
 			c.LastCase(fmt.Sprintf("mixed solo pass rep=%d G=%d", rep, g))
